@@ -237,11 +237,11 @@ def check_ds(case):
 def _tf_opt(case, start=None):
   from precondition.tearfree import grafting, momentum, optimizer, second_order, shampoo, sketchy
   if case["so"] == "shampoo":
-    so = second_order.Options(merge_dims=1024, second_order_type=second_order.SecondOrderType.SHAMPOO,
+    so = second_order.Options(merge_dims=2, second_order_type=second_order.SecondOrderType.SHAMPOO,
                               shampoo_options=shampoo.Options(block_size=2, update_preconditioners_freq=case["pf"],
                                                               update_statistics_freq=case["sf"], second_moment_decay=0.9))
   else:
-    so = second_order.Options(merge_dims=1024, second_order_type=second_order.SecondOrderType.SKETCHY, shampoo_options=None,
+    so = second_order.Options(merge_dims=2, second_order_type=second_order.SecondOrderType.SKETCHY, shampoo_options=None,
                               sketchy_options=sketchy.Options(rank=2, update_freq=case["sf"], second_moment_decay=0.9))
   gt = grafting.GraftingType(case["graft"])
   go = grafting.Options(grafting_type=gt, second_moment_decay=0.0 if case["graft"] == "sgd" else 0.99,
